@@ -62,7 +62,7 @@ func prepareC03(b *built, overlay map[string]string, h hash.Hash) []RewriteSpec 
 	// probe shapes: programs the shipped goose rejects; translated leniently
 	ppkg := filepath.Join(mod, "probe")
 	os.MkdirAll(ppkg, 0755)
-	pb := c03gen.GenerateProbe(b.genSeed, 80)
+	pb := c03gen.GenerateProbe(b.genSeed, 90)
 	os.WriteFile(filepath.Join(ppkg, "probe.go"), []byte(pb.Source), 0644)
 	os.WriteFile(filepath.Join(ppkg, "registry.go"), []byte(pb.RegistryFor("probe")), 0644)
 	pregFile := filepath.Join(b.work, "gen", "probe_registry.go")
